@@ -113,6 +113,9 @@ def c12(chk, tier):
                                            "Gaps": "{1, 3}", "D": "2", "Emit": "TRUE"}))
         runs.append(("MCRegrid n<=5", {"MaxN": "5", "Ps": "<- PsD", "Es": "<- EsNone", "Gaps": "{1, 2}",
                                        "D": "2", "Emit": "TRUE"}))
+    # one pair of samples crossing many levels (a storm rise: tens of levels between two samples)
+    runs.append(("MCRegrid n<=4 wide jumps", {"MaxN": "4", "Ps": "<- PsW", "Es": "<- EsNone", "Gaps": "{1, 2}",
+                                              "D": "2", "Emit": "TRUE"}))
     for label, consts in runs:
         res = tlc.run("MCRegrid", tlc.cfg_text(consts, spec="Spec", invariants=invs + ["EmitInv"]),
                       workers=12, invariants=invs, timeout=3000)
